@@ -16,19 +16,24 @@ Idents == U.idents                      \* sequence: position k of obs.sel / obs
 VARIABLES tid, i
 vars == <<tid, i, loaded>>
 Ev == Traces[tid][i]
-After(e) == IF e.op = "load" THEN loaded \cup {e.x} ELSE loaded \ {e.x}
+\* `loaded` holds key OBJECTS here, as pairs <<owning instance, component>>: an instance is a whole key object (all its components) or
+\* one subkey object of such a key (U.owner names the key object it belongs to); two objects of the same key are different owners
+TOwner(x) == IF "owner" \in DOMAIN U /\ x \in DOMAIN U.owner THEN U.owner[x] ELSE x
+Held(x) == {<<TOwner(x), c>> : c \in TComps[x]}
+After(e) == IF e.op = "load" THEN loaded \cup Held(e.x) ELSE loaded \ Held(e.x)
+CompsOf(L) == {p[2] : p \in L}
 FirstFailing(e, L) ==
   IF "raised" \in DOMAIN e /\ e.raised THEN "C19.operation-raised"      \* loading / unloading a key is total (Keyring.tla: Load, Reload, Unload, UnloadAbsent)
   ELSE IF ~("obs" \in DOMAIN e) THEN "ok"
   ELSE LET o == e.obs IN
-    IF ~FprsOK(L, SetOf(o.fprs)) THEN "C19.fingerprints"
-    ELSE IF \E k \in 1..Len(Idents) : ~SelOK(L, Idents[k], o.sel[k]) THEN "C19.select"
-    ELSE IF \E k \in 1..Len(Idents) : ~HasOK(L, Idents[k], o.has[k]) THEN "C19.contains"
-    ELSE IF ~LenOK(L, o.len) THEN "C19.len"
+    IF ~FprsOKC(CompsOf(L), SetOf(o.fprs)) THEN "C19.fingerprints"
+    ELSE IF \E k \in 1..Len(Idents) : ~SelOKC(CompsOf(L), Idents[k], o.sel[k]) THEN "C19.select"
+    ELSE IF \E k \in 1..Len(Idents) : ~HasOKC(CompsOf(L), Idents[k], o.has[k]) THEN "C19.contains"
+    ELSE IF o.len # Cardinality(L) THEN "C19.len"
     ELSE "ok"
 BadIdent(e, L) == IF ~("obs" \in DOMAIN e) THEN "-" ELSE LET o == e.obs IN
-  IF \E k \in 1..Len(Idents) : ~SelOK(L, Idents[k], o.sel[k])
-  THEN Idents[CHOOSE k \in 1..Len(Idents) : ~SelOK(L, Idents[k], o.sel[k])] ELSE "-"
+  IF \E k \in 1..Len(Idents) : ~SelOKC(CompsOf(L), Idents[k], o.sel[k])
+  THEN Idents[CHOOSE k \in 1..Len(Idents) : ~SelOKC(CompsOf(L), Idents[k], o.sel[k])] ELSE "-"
 NextTrace == tid' = tid + 1 /\ i' = 1 /\ loaded' = {}
 TInit == tid = 1 /\ i = 1 /\ loaded = {}
 Step == IF tid > Len(Traces) THEN PrintT(<<"DONE", Len(Traces)>>) /\ tid' = tid + 1 /\ UNCHANGED <<i, loaded>>
